@@ -167,7 +167,7 @@ def module_source(literals):
     n = len(lines) + 1
     for t in literals:
         starts.append(n)
-        chunk = '(' + t + '),'
+        chunk = '(' + t + NL + '),'      # closing parenthesis on its own line: the literal text may end in a comment
         lines.append(chunk)
         n += chunk.count(NL) + 1
     lines.append(']')
@@ -232,6 +232,15 @@ def build_packed(job):
             break
         bad = _attribute(r.errors, starts, len(keep))
         msg = r.errors.strip().splitlines()[-1][-200:] if r.errors.strip() else ''
+        if bad and len(keep) > 1:
+            # A scanner that loses track inside one literal reports the error further down: trust a position only if the
+            # literal it points at also fails on its own.
+            confirmed = set()
+            for j in sorted(bad):
+                alone = farm.build('%s_v%d' % (name, keep[j]), module_source([literals[keep[j]]])[0], workdir, ext='.py', cc=False)
+                if not alone.ok:
+                    confirmed.add(j)
+            bad = confirmed
         if not bad:
             if len(keep) == 1:
                 bad = {0}
